@@ -32,6 +32,49 @@ ADDR_CLASSES = ["HostIpAddressAVP", "UeLocalIpAddressAVP", "AnGwAddressAVP", "Ac
 TIME_CLASSES = ["EventTimestampAVP", "TariffTimeChangeAVP"]
 
 
+def check_bits_history(cls_name, w0, ops):
+    """One flag-word AVP object through a history of bit operations and direct assignments of `data`: after every step the
+    accessors must agree with the word the AVP carries now (integer model)."""
+    common.bootstrap()
+    from bromelia.exceptions import DiameterTypeError
+    cls = refdict.cls_obj(cls_name)
+    errors = common.lib_errors()
+    try:
+        avp = cls(w0)
+    except (Exception,) + errors as e:
+        return [V("Unsigned32 AVP built from a 32-bit word", f"bits/ctor-raises/{type(e).__name__}", f"{cls_name}({w0}): {e!r}")]
+    w = w0
+    for step, op in enumerate(ops):
+        k = op["op"]
+        try:
+            if k == "assign":
+                avp.data = struct.pack(">I", op["w"])
+                w = op["w"]
+            elif k == "test":
+                r = avp.is_bit_set(op["i"])
+                if bool(r) != bool((w >> op["i"]) & 1):
+                    return [V("is_bit_set(i) reads bit i of the word the AVP carries now", "bits/history/test-wrong",
+                              f"{cls_name}({w0:#x}) ops {ops[:step + 1]}: bit {op['i']} of {w:#x} reported {r}")]
+            else:
+                bit = (w >> op["i"]) & 1
+                redundant = (k == "set" and bit) or (k == "unset" and not bit)
+                try:
+                    (avp.set_bit if k == "set" else avp.unset_bit)(op["i"])
+                    if redundant:
+                        return [V("redundant set/clear is rejected", f"bits/history/{k}/redundant-accepted", f"ops {ops[:step + 1]} on {w:#x}")]
+                    w = (w | (1 << op["i"])) if k == "set" else (w & ~(1 << op["i"]))
+                except DiameterTypeError:
+                    if not redundant:
+                        return [V("a set/clear that changes the bit is accepted", f"bits/history/{k}/refused",
+                                  f"{cls_name}({w0:#x}) ops {ops[:step + 1]}: word is {w:#x}")]
+        except (Exception,) + errors as e:
+            return [V("bit accessors raise only the library's type error", f"bits/history/{k}/foreign-{type(e).__name__}", f"ops {ops[:step + 1]}: {e!r}")]
+        if avp.data != struct.pack(">I", w):
+            return [V("data is the big-endian word after every operation", f"bits/history/data-after-{k}",
+                      f"{cls_name}({w0:#x}) ops {ops[:step + 1]}: data {avp.data.hex()} want {w:#010x}")]
+    return []
+
+
 def check_bits(cls_name, w, i, op):
     common.bootstrap()
     from bromelia.exceptions import DiameterTypeError
@@ -154,11 +197,15 @@ def run_case(case):
         return check_addr(case["cls"], case["lit"])
     if k == "time":
         return check_time(case["cls"], case["dt"], case.get("tz"))
+    if k == "bits-history":
+        return check_bits_history(case["cls"], case["w"], case["ops"])
     raise ValueError(case)
 
 
 def nontrivial(case):
     k = case["kind"]
+    if k == "bits-history":
+        return any(o["op"] == "assign" for o in case["ops"])
     if k == "bits":
         return case["i"] in (7, 8, 15, 16, 23, 24) or bin(case["w"]).count("1") >= 2 or not (0 <= case["i"] <= 31)
     if k == "addr":
@@ -194,7 +241,11 @@ def main(ctx):
     addr = st.builds(lambda c, l: {"kind": "addr", "cls": c, "lit": l}, st.sampled_from(ADDR_CLASSES), lits)
     tm = st.builds(lambda c, d, tz: {"kind": "time", "cls": c, "dt": gens.dtval(d)["v"], "tz": tz}, st.sampled_from(TIME_CLASSES), gens.datetimes,
                    st.sampled_from([None] + common.TZS))
-    cases = st.one_of(bits, addr, tm)
+    hop = st.one_of(st.builds(lambda o, i: {"op": o, "i": i}, st.sampled_from(["test", "test", "set", "unset"]), st.integers(0, 31)),
+                    st.builds(lambda w: {"op": "assign", "w": w}, words))
+    hist = st.builds(lambda c, w, ops: {"kind": "bits-history", "cls": c, "w": w, "ops": ops}, st.sampled_from(BIT_CLASSES), words,
+                     st.lists(hop, min_size=2, max_size=8))
+    cases = st.one_of(bits, addr, tm, hist)
 
     def body(case):
         f = [case["kind"]]
@@ -209,7 +260,7 @@ def main(ctx):
     common.hyp_collect(cases, body, 4000 if ctx.quick else 300000, ctx.seed)
     for path, rec in common.load_replays(PID):
         col.record(rec["case"], run_case(rec["case"]), nontrivial=True, classes=["replay"])
-    ctx.required_classes = ["bits", "addr", "time", "bit-out-of-range", "ipv6", "ipv4", "time-under-non-default-tz"]
+    ctx.required_classes = ["bits", "addr", "time", "bit-out-of-range", "ipv6", "ipv4", "time-under-non-default-tz", "bits-history"]
     ctx.assumptions = ["bit indices are ints; address literals without scope ids; naive datetimes"]
     ctx.shrinker = lambda sig, case: common.hyp_shrink(cases, lambda c: any(v.sig == sig for v in run_case(c)), ctx.seed, n=3000, budget_s=30) or case
     return col
